@@ -151,16 +151,45 @@ type stubApp struct {
 	fail bool
 }
 
+// ics20Denom is the denom under which ibc-go v10's transfer keeper unescrows / mints a received token
+// (keeper/relay.go OnRecvPacket), computed with ibc-go's own functions.
 func ics20Denom(p channeltypes.Packet, denom string) string {
-	pre := p.SourcePort + "/" + p.SourceChannel + "/"
-	if strings.HasPrefix(denom, pre) {
-		rest := denom[len(pre):]
-		if strings.HasPrefix(rest, "transfer/channel-") {
-			return ibcDenom(rest)
-		}
-		return rest
+	d := transfertypes.ExtractDenomFromPath(denom)
+	if d.HasPrefix(p.SourcePort, p.SourceChannel) {
+		d.Trace = d.Trace[1:]
+		return d.IBCDenom()
 	}
-	return ibcDenom(p.DestinationPort + "/" + p.DestinationChannel + "/" + denom)
+	d.Trace = append([]transfertypes.Hop{transfertypes.NewHop(p.DestinationPort, p.DestinationChannel)}, d.Trace...)
+	return d.IBCDenom()
+}
+
+// segs encodes a denom string for the model: "/"-separated segments, transfer = 1, channel-N = 1000+N,
+// 07-tendermint-N = 2000+N, base-denom words = small numbers.
+var baseSeg = map[string]int64{"stake": 10, "photon": 11, "ucons": 12, "ufoo": 13, "uusdc": 14, "uosmo": 15}
+
+func segs(denom string) T {
+	out := []T{}
+	for _, w := range strings.Split(denom, "/") {
+		var n int64
+		switch {
+		case w == "transfer":
+			n = 1
+		case strings.HasPrefix(w, "channel-"):
+			fmt.Sscanf(w, "channel-%d", &n)
+			n += 1000
+		case strings.HasPrefix(w, "07-tendermint-"):
+			fmt.Sscanf(w, "07-tendermint-%d", &n)
+			n += 2000
+		default:
+			v, ok := baseSeg[w]
+			if !ok {
+				panic("unknown denom segment " + w)
+			}
+			n = v
+		}
+		out = append(out, n)
+	}
+	return out
 }
 
 func (a *stubApp) OnRecvPacket(ctx sdk.Context, _ string, p channeltypes.Packet, _ sdk.AccAddress) exported.Acknowledgement {
@@ -259,24 +288,40 @@ type drv struct {
 	height int64
 	pool   string
 	other  string
-	cden   [][]string // per chain: consumer denoms [ucons, ufoo, voucher(stake)]
+	cden   [][]string // per chain: consumer denoms [ucons, ufoo, voucher(stake), voucher(usdc via provider)]
+	syms   []int
 }
 
-// provider denom symbol of the case -> string
-func (d *drv) psym(sym int) string {
+// provider denom symbol of the case -> full trace path ("" path = native) of the denom
+func (d *drv) ppath(sym int) string {
 	switch {
 	case sym == 0:
 		return "stake"
 	case sym == 1:
 		return "photon"
+	case sym == 2: // third-chain token the provider received over its channel-7 (multi-hop when a consumer returns it)
+		return "transfer/channel-7/uusdc"
+	case sym == 3: // the same over an IBC v2 "channel" named by a client id
+		return "transfer/07-tendermint-3/uusdc"
+	case sym >= 30: // third-chain token the consumer on provider channel (sym-30) received over its channel-9
+		return "transfer/" + provChan(sym-30) + "/transfer/channel-9/uosmo"
 	default:
 		k := (sym - 10) / 2
 		base := "ucons"
 		if (sym-10)%2 == 1 {
 			base = "ufoo"
 		}
-		return ibcDenom("transfer/" + provChan(k) + "/" + base)
+		return "transfer/" + provChan(k) + "/" + base
 	}
+}
+
+// provider denom symbol of the case -> denom string held by the bank
+func (d *drv) psym(sym int) string {
+	p := d.ppath(sym)
+	if !strings.Contains(p, "/") {
+		return p
+	}
+	return ibcDenom(p)
 }
 
 func (d *drv) prank(sym int) int64 {
@@ -339,11 +384,15 @@ func (d *drv) setup(tb testing.TB) {
 	d.other = sdk.AccAddress([]byte("someoneelse000000001")).String()
 
 	// denom universe
-	syms := []int{0, 1}
+	syms := []int{0, 1, 2, 3}
 	for c := 0; c < k.NC; c++ {
 		syms = append(syms, 10+2*c, 11+2*c)
 	}
 	syms = append(syms, 10+2*k.NC)
+	for c := 0; c <= k.NC; c++ {
+		syms = append(syms, 30+c)
+	}
+	d.syms = syms
 	for _, s := range syms {
 		d.denoms = append(d.denoms, d.psym(s))
 	}
@@ -392,7 +441,8 @@ func (d *drv) setup(tb testing.TB) {
 	for c := 0; c < k.NC; c++ {
 		ce := newConsEnv(tb, fmt.Sprintf("cons%d-1", c))
 		cfg := k.Chains[c]
-		d.cden = append(d.cden, []string{"ucons", "ufoo", ibcDenom("transfer/" + consChan + "/stake")})
+		d.cden = append(d.cden, []string{"ucons", "ufoo", ibcDenom("transfer/" + consChan + "/stake"),
+			ibcDenom("transfer/" + consChan + "/transfer/channel-7/uusdc")})
 		p := ccvtypes.DefaultParams()
 		p.Enabled = true
 		p.DistributionTransmissionChannel = consChan
@@ -420,8 +470,12 @@ func (d *drv) setConsParams(c int, frac *big.Int, bpdt int64, rd, prd []int) {
 		p.RewardDenoms = append(p.RewardDenoms, d.cden[c][x])
 	}
 	p.ProviderRewardDenoms = nil
-	for range prd {
-		p.ProviderRewardDenoms = append(p.ProviderRewardDenoms, "stake")
+	for _, x := range prd {
+		if x == 3 {
+			p.ProviderRewardDenoms = append(p.ProviderRewardDenoms, "transfer/channel-7/uusdc")
+		} else {
+			p.ProviderRewardDenoms = append(p.ProviderRewardDenoms, "stake")
+		}
 	}
 	ce.params = p
 	ce.k.SetParams(ce.ctx, p)
@@ -432,8 +486,12 @@ func allowedOf(rd, prd []int) T {
 	for _, x := range rd {
 		out = append(out, int64(x))
 	}
-	for range prd {
-		out = append(out, int64(2))
+	for _, x := range prd {
+		if x == 3 {
+			out = append(out, int64(3))
+		} else {
+			out = append(out, int64(2))
+		}
 	}
 	return out
 }
@@ -481,7 +539,32 @@ func (d *drv) psnap() T {
 		}
 		reg = append(reg, int64(r))
 	}
-	return common.L(bank, cp, outst, comm, alloc, reg)
+	// credits stored under a denom outside the universe (a denom no account holds), per consumer
+	foreign := []T{}
+	for c := 0; c < d.k.NC; c++ {
+		pre := providertypes.ConsumerRewardsAllocationByDenomKey(cid(c), "")
+		it := storetypes.KVStorePrefixIterator(ctx.KVStore(d.p.StoreKey), pre)
+		n := int64(0)
+		for ; it.Valid(); it.Next() {
+			if _, ok := d.rank[string(it.Key()[len(pre):])]; !ok {
+				n++
+			}
+		}
+		it.Close()
+		foreign = append(foreign, n)
+	}
+	return common.L(bank, cp, outst, comm, alloc, reg, foreign)
+}
+
+// the ICS-20 packet denom (full trace path) under which a consumer denom travels
+func (d *drv) cwire(c int, denom string) string {
+	switch denom {
+	case d.cden[c][2]:
+		return "transfer/" + consChan + "/stake"
+	case d.cden[c][3]:
+		return "transfer/" + consChan + "/transfer/channel-7/uusdc"
+	}
+	return denom
 }
 
 func (d *drv) cdenIdx(c int, denom string) int64 {
@@ -577,30 +660,35 @@ func (d *drv) exec(raw json.RawMessage) (in T, entry T) {
 		in = common.L(2, a.i(1), d.prank(a.i(2)), a.b(3))
 	case 3: // PReceive ch memo dkind amt ack to_pool
 		ch, kind := a.i(1), a.i(3)
-		if ch > d.k.NC && kind >= 2 {
-			kind = 0 // unknown channel: only provider-native denoms
+		if ch > d.k.NC && (kind == 2 || kind == 3 || kind == 5) {
+			kind = 0 // unknown channel: no per-channel denoms
 		}
 		if ch == d.k.NC && kind == 3 {
 			kind = 2
 		}
 		var wire string
-		var sym int
 		switch kind {
-		case 0:
-			wire, sym = "transfer/"+consChan+"/stake", 0
+		case 0: // provider-native coin returned by the consumer
+			wire = "transfer/" + consChan + "/stake"
 		case 1:
-			wire, sym = "transfer/"+consChan+"/photon", 1
-		case 2:
-			wire, sym = "ucons", 10+2*ch
-		default:
-			wire, sym = "ufoo", 11+2*ch
+			wire = "transfer/" + consChan + "/photon"
+		case 2: // consumer-native tokens
+			wire = "ucons"
+		case 3:
+			wire = "ufoo"
+		case 4: // third-chain voucher that passed through the provider: a trace remains after the consumer's hop
+			wire = "transfer/" + consChan + "/transfer/channel-7/uusdc"
+		case 5: // third-chain token that reached the consumer directly
+			wire = "transfer/channel-9/uosmo"
+		default: // voucher whose remaining first hop is an IBC v2 client id
+			wire = "transfer/" + consChan + "/transfer/07-tendermint-3/uusdc"
 		}
 		rcv := d.pool
 		if a.i(6) == 0 {
 			rcv = d.other
 		}
 		d.recv(ch, wire, a.b(4), "consumer1sender", rcv, memoStr(a.i(2)), a.i(5) != 0)
-		in = common.L(3, ch, a.i(2), d.prank(sym), a.b(4), a.i(5), a.i(6))
+		in = common.L(3, ch, a.i(2), segs(wire), a.b(4), a.i(5), a.i(6))
 	case 4: // PBegin h tax [[ownrate, removed]..] fail_tax fail_send fail_fund fail_alloc
 		d.height = int64(a.i(1))
 		hdr := d.p.Ctx.BlockHeader()
@@ -773,10 +861,7 @@ func (d *drv) exec(raw json.RawMessage) (in T, entry T) {
 		} else {
 			amt, _ := new(big.Int).SetString(x.Amount, 10)
 			if tag == 13 {
-				wire := x.Denom
-				if x.Denom == d.cden[c][2] {
-					wire = "transfer/" + consChan + "/stake"
-				}
+				wire := d.cwire(c, x.Denom)
 				d.recv(c, wire, amt, x.Sender, x.Receiver, x.Memo, ackOK)
 			}
 			if !ackOK {
@@ -828,12 +913,26 @@ func (d *drv) header() T {
 	chains := []T{}
 	for c := 0; c < k.NC; c++ {
 		cfg := k.Chains[c]
-		dmap := common.L(common.L(0, d.prank(10+2*c)), common.L(1, d.prank(11+2*c)), common.L(2, d.prank(0)))
-		chains = append(chains, common.L(bigOf(cfg.Frac), cfg.Bpdt, allowedOf(cfg.Rd, cfg.Prd), common.L(0, 1, 2),
+		dmap := []T{}
+		for i, dn := range d.cden[c] {
+			dmap = append(dmap, common.L(i, segs(d.cwire(c, dn))))
+		}
+		chains = append(chains, common.L(bigOf(cfg.Frac), cfg.Bpdt, allowedOf(cfg.Rd, cfg.Prd), common.L(0, 1, 2, 3),
 			cfg.Memo, c, cfg.ToPool, dmap))
 	}
+	// denom table of the model: key (0 :: segments of a native denom, 1 :: segments of the hashed path) -> denom id
+	dtab := []T{}
+	for _, sy := range d.syms {
+		pth := d.ppath(sy)
+		tag := int64(1)
+		if !strings.Contains(pth, "/") {
+			tag = 0
+		}
+		key := append([]T{tag}, segs(pth).([]T)...)
+		dtab = append(dtab, common.L(key, d.prank(sy)))
+	}
 	return common.L(len(d.denoms), k.NV, cons, chans,
-		common.L(k.Prov.Epochs, k.Prov.Bpe, d.pranks(sortedSyms(d, k.Prov.Registered)), bigOf(k.Prov.MinRate)), chains)
+		common.L(k.Prov.Epochs, k.Prov.Bpe, d.pranks(sortedSyms(d, k.Prov.Registered)), bigOf(k.Prov.MinRate)), chains, dtab)
 }
 
 // registered denoms in store (ascending string) order, as symbols
